@@ -354,11 +354,11 @@ def check_forwarding(c, repo):
     star2 = [kw.value.id for kw in pk[0].keywords if kw.arg is None and isinstance(kw.value, ast.Name)]
     c.need(len(star2) == 1, 'PopenSpawn: **kwargs not found')
     kwn = star2[0]
-    dk = [n for n in iter_nodes(pi.node) if isinstance(n, ast.Assign) and kwn in assigned_names(n) and isinstance(n.value, ast.Call) and dotted(n.value.func) == 'dict']
-    c.need(len(dk) == 1, 'PopenSpawn: kwargs dict not found')
-    kw2 = dict((kw.arg, norm(kw.value)) for kw in dk[0].value.keywords)
+    gp_ = pi.cfg
+    outs = dict_contents_at(gp_, gp_.node_for(pk[0]), kwn, {}, fi=pi)
+    c.need(outs, 'PopenSpawn: the contents of **%s could not be determined' % kwn)
     for a in ('cwd', 'env', 'preexec_fn'):
-        c.check(kw2.get(a) == a, pi, dk[0], 'PopenSpawn forwards %s to subprocess.Popen' % a, witness=str(kw2), kind='ast', tag='popen-' + a)
+        c.check(all(o.get(a) == a for o in outs), pi, pk[0], 'PopenSpawn forwards %s to subprocess.Popen' % a, witness=str(outs)[:200], kind='alg', tag='popen-' + a)
     ok = len(pk) == 1 and pk[0].args and is_name(pk[0].args[0], 'cmd')
     c.check(ok, pi, pk[0] if pk else None, 'subprocess.Popen(cmd, **kwargs)', kind='ast', tag='popen-call')
 
